@@ -54,6 +54,9 @@ ARG_POOL = [
     (MATRIX, "Matrix()"),
     (T("Other", ns=("ns",), suf="&"), None),
     (UCHAR, "'c'"),
+    (T("vector", T("Other", ns=("ns",)), ns=("std",), suf="*"), "nullptr"),
+    (T("map", T("string"), T("Other", ns=("ns",), suf="*"), ns=("std",), const=True, suf="@"), None),
+    (T("Box", T("vector", DOUBLE, ns=("std",)), ns=("ns",), const=True, suf="&"), None),
 ]
 RET_POOL = [
     ("void",), ("one", INT), ("one", DOUBLE), ("one", T("Other", ns=("ns",))), ("one", T("Other", ns=("ns",), suf="*")),
